@@ -89,6 +89,27 @@ CHECK_DEADLOCK FALSE
 """
 
 
+PEEWEE_CFG = """CONSTANTS
+  BucketNames = {"A", "B"}
+  Ticks = {0, 1}
+  Durs = {0, 1}
+  Datas = {"d1"}
+  MaxRows = %(rows)d
+  UpsertScoped = %(us)s
+  DeleteEventsWithBucket = %(de)s
+  RefreshKeysOnDelete = %(rk)s
+SPECIFICATION Spec
+CONSTRAINT Bound
+INVARIANT IdsGloballyUnique
+INVARIANT NoOrphans
+INVARIANT CacheIsTable
+INVARIANT KeysDistinct
+PROPERTY Refines
+PROPERTY FrameOK
+CHECK_DEADLOCK FALSE
+"""
+
+
 def design_phase(rep, tier, prop):
     """SQL-level design layer of the sqlite backend refines AwStore; the pinned tree's statements are refuted."""
     q = tier == "quick"
@@ -101,6 +122,18 @@ def design_phase(rep, tier, prop):
                              ("replace re-parents a row of another bucket", "TRUE", "FALSE", "TRUE"),
                              ("get_events ordered by end time", "TRUE", "TRUE", "FALSE")):
         r = tlc.model_check("AwSqliteDesign", DESIGN_CFG % dict(rl=rl, rs=rs, ob=ob, datas='"d1"', rows=2), tag="mc_sqldesign_neg", expect_ok=False)
+        if r["ok"]:
+            raise tlc.TLCFailure("negative control '%s' was not refuted by TLC" % name)
+        neg[name] = "refuted after %d states" % r["states"]
+    # the ORM backend: tables without AUTOINCREMENT (keys and ids come back), the bucket_keys cache, upserts through replace()
+    res = tlc.model_check("AwPeeweeDesign", PEEWEE_CFG % dict(rows=2 if q else 3, us="TRUE", de="TRUE", rk="TRUE"), tag="mc_pwdesign", heap="8g")
+    rep.add_model(res, "AwPeeweeDesign (bucketmodel / eventmodel rowids handed out as max + 1 and reused, bucket_keys cache, replace / upsert / bulk / replace_last / delete / delete_bucket "
+                       "as the ORM issues them) refines AwStore's step relation (Refines), changes no other bucket (FrameOK), leaves no event row without its bucket row although keys are reused "
+                       "(NoOrphans), cache = table at every return, %d rows, 2 buckets" % (2 if q else 3))
+    for name, us, de, rk in (("peewee: id-carrying event saved without bucket condition (pinned insert_one)", "FALSE", "TRUE", "TRUE"),
+                             ("peewee: delete_bucket leaves the event rows (adopted by the next bucket with the reused key)", "TRUE", "FALSE", "TRUE"),
+                             ("peewee: delete_bucket does not refresh bucket_keys", "TRUE", "TRUE", "FALSE")):
+        r = tlc.model_check("AwPeeweeDesign", PEEWEE_CFG % dict(rows=2, us=us, de=de, rk=rk), tag="mc_pwdesign_neg", expect_ok=False)
         if r["ok"]:
             raise tlc.TLCFailure("negative control '%s' was not refuted by TLC" % name)
         neg[name] = "refuted after %d states" % r["states"]
